@@ -176,7 +176,7 @@ func Exec(f *File, maxSteps int) *Result {
 			}
 			stack[in.Args[0]] = stack[len(stack)-1]
 		case DEFBLOCK:
-			if len(blocks) == BlockStackSize {
+			if len(blocks) == ref.MaxBlockDepth {
 				// the VM checks before reading the operands
 				return fail(last-in.Len+1, "nest")
 			}
